@@ -640,6 +640,13 @@ def render_schemas(r, iface):
                 style = rng.choice(["plain", "plain", "tns-default", "xsd-default"])
                 r.prefixes = {j: (base_prefixes[j] if rng.random() < 0.6 else "%s%d" % (rng.choice(["q", "v", "z"]), j))
                               for j in base_prefixes}
+                if n >= 2 and rng.random() < 0.3:
+                    # the same prefix names as elsewhere, bound to other namespaces in this block
+                    names = [base_prefixes[j] for j in range(n)]
+                    rot = rng.randint(1, n - 1)
+                    r.prefixes = dict(base_prefixes)
+                    for j in range(n):
+                        r.prefixes[j] = names[(j + rot) % n]
             elif base_default:
                 style = "tns-default"
             r.default_ns_schema = style == "tns-default"
